@@ -45,6 +45,10 @@ func popWorker(args map[string]any, fn func(keyName string, count int) (values [
 		}
 		output.data = respBulkString(string(values[0]))
 	} else {
+		if values == nil {
+			// the key does not exist: null reply, even for a count of zero
+			return
+		}
 		if len(values) == 0 && count > 0 {
 			return
 		}
